@@ -6,6 +6,8 @@ import (
 	"strconv"
 	"strings"
 
+	"github.com/btcsuite/btcd/blockchain"
+	"github.com/btcsuite/btcd/chainhash/v2"
 	"github.com/btcsuite/btcd/txscript/v2"
 	"github.com/btcsuite/btcd/wire/v2"
 	"verifharness/core"
@@ -1082,6 +1084,7 @@ func genHardening(g *core.Gen, r *core.Rand) {
 		}
 		g.Case(cl, n > 0, fmt.Sprintf("C13 radd %d %s %s", n, rs, hx(r.Bytes(32))))
 	}
+	genSanity(g, r)
 	// A2: results are values
 	for n := 0; n <= g.N(33, 80); n++ {
 		g.Case("merkle-values", n >= 2, "C13 mvalues "+txsTok(leafList(r, n, 0, 0, true)))
@@ -1191,4 +1194,96 @@ func bytes0xac(n int) []byte {
 		b[i] = 0xac
 	}
 	return b
+}
+
+// plainTx passes CheckTransactionSanity and has no sigops unless asked for.
+func plainTx(r *core.Rand, sigops int) *wire.MsgTx {
+	pk := []byte{0x51}
+	if sigops > 0 {
+		pk = bytes0xac(sigops)
+	}
+	return &wire.MsgTx{Version: 1, TxIn: []*wire.TxIn{{PreviousOutPoint: randOutPoint(r), Sequence: 0xffffffff}},
+		TxOut: []*wire.TxOut{{Value: int64(1 + r.Intn(1000)), PkScript: pk}}}
+}
+
+func txidRoot(txs []*wire.MsgTx) []byte {
+	var ids [][]byte
+	for _, t := range txs {
+		h := t.TxHash()
+		ids = append(ids, h[:])
+	}
+	return naiveRoot(ids)
+}
+
+// grind finds a nonce whose header hash meets the regtest target (the proof of
+// work is not what these cases observe).
+func grind(root []byte) uint32 {
+	var h chainhash.Hash
+	copy(h[:], root)
+	target := blockchain.CompactToBig(0x207fffff)
+	for n := uint32(0); ; n++ {
+		hdr := sanityHeader(h, n)
+		bh := hdr.BlockHash()
+		if blockchain.HashToBig(&bh).Cmp(target) <= 0 {
+			return n
+		}
+	}
+}
+
+func genSanity(g *core.Gen, r *core.Rand) {
+	emit := func(class string, root []byte, txs []*wire.MsgTx) {
+		g.Case(class, len(txs) >= 2, fmt.Sprintf("C13 sanity %s %d %d %s", hx(root), grind(root), r.Intn(2), txsTok(txs)))
+	}
+	mk := func(n int) []*wire.MsgTx {
+		txs := []*wire.MsgTx{coinbaseTx(r, []*wire.TxOut{{Value: 50, PkScript: []byte{0x51}}}, nil)}
+		for len(txs) < n {
+			txs = append(txs, plainTx(r, 0))
+		}
+		return txs
+	}
+	for i := 0; i < g.N(150, 1000); i++ {
+		n := 1 + r.Intn(12)
+		txs := mk(n)
+		root := txidRoot(txs)
+		switch r.Intn(6) {
+		case 0:
+			bad := append([]byte{}, root...)
+			bad[r.Intn(32)] ^= byte(1 << r.Intn(8))
+			emit("sanity-bad-merkle", bad, txs)
+		case 1:
+			// CVE-2012-2459: repeat the tail; for the right counts the header root of the
+			// ORIGINAL list still matches, and only the duplicate check rejects the block
+			k := 1 + r.Intn(3)
+			if k >= n {
+				k = n - 1
+			}
+			if k < 1 {
+				emit("sanity-valid", root, txs)
+				continue
+			}
+			mut := append(append([]*wire.MsgTx{}, txs...), txs[n-k:]...)
+			emit("sanity-duplicated-tail", root, mut)
+			emit("sanity-duplicated-tail", txidRoot(mut), mut)
+		case 2:
+			// root of the reversed list / of the wtxids
+			rev := append([]*wire.MsgTx{}, txs...)
+			if n > 2 {
+				rev[1], rev[n-1] = rev[n-1], rev[1]
+			}
+			emit("sanity-root-of-permutation", txidRoot(rev), txs)
+		default:
+			emit("sanity-valid", root, txs)
+		}
+	}
+	// legacy sigop limit: 4 * count against 80000, single script and spread over transactions
+	for _, c := range []int{19999, 20000, 20001} {
+		txs := mk(2)
+		txs[1] = plainTx(r, c)
+		emit("sanity-sigop-limit", txidRoot(txs), txs)
+		txs = mk(4)
+		txs[1] = plainTx(r, 10000)
+		txs[2] = plainTx(r, c-10000-3)
+		txs[3] = plainTx(r, 3)
+		emit("sanity-sigop-limit", txidRoot(txs), txs)
+	}
 }
